@@ -301,7 +301,106 @@ func genOffDst(r *core.Rand) string {
 	return fmt.Sprintf("gcmdec fresh%s %s %s %s %s", offSize(r), hx(key), hx(nonce), hx(ad), hx(ct))
 }
 
+// ---------- history stream: one key / iv / nonce / AD / dst buffer, mutated in place between calls
+
+// genHist: 4..12 calls that all take their key, iv/nonce, additional data and dst from the same
+// backing arrays (impl, header `hist`).  Between consecutive calls the key mostly changes to
+// ANOTHER key of the SAME length (one bit, or all bytes), so that anything the library kept
+// from the previous call by reference rather than by value (a cached cipher keyed on the
+// caller's slice, a retained iv) shows as a wrong result.  Decryptions are of messages made by
+// the stdlib under the current key (must succeed) or under the previous key (must fail / give
+// the stdlib's answer).  Each call is still a pure function of its current arguments — that
+// is what the model computes and what the sequence checks of the code.
+func genHist(r *core.Rand, tier string) core.Case {
+	lines := []string{"@ C08 hist"}
+	ks := []int{16, 24, 32}[r.Intn(3)]
+	key := r.Bytes(ks)
+	prev := append([]byte{}, key...)
+	n := r.Range(4, 12)
+	for i := 0; i < n; i++ {
+		if i > 0 {
+			prev = append([]byte{}, key...)
+			switch r.Pick(35, 35, 15, 15) {
+			case 0: // one bit of the key buffer flipped
+				key = append([]byte{}, key...)
+				key[r.Intn(len(key))] ^= 1 << r.Intn(8)
+			case 1: // a completely different key of the same length
+				key = r.Bytes(len(key))
+			case 2: // other key size
+				key = r.Bytes([]int{16, 24, 32}[r.Intn(3)])
+			case 3: // unchanged (a legitimate cache hit)
+			}
+		}
+		decKey := key
+		if r.Chance(30) && len(prev) == len(key) {
+			decKey = prev // message made under the key the buffer held before
+		}
+		iv, nonce, ad := r.Bytes(16), r.Bytes(12), genAD(r)
+		pt := r.Bytes(genLen(r))
+		lay := layout(r)
+		switch r.Pick(25, 25, 25, 25) {
+		case 0:
+			lines = append(lines, fmt.Sprintf("cbcenc %s %s %s %s", lay, hx(key), hx(iv), hx(pt)))
+		case 1:
+			lines = append(lines, fmt.Sprintf("cbcdec %s %s %s %s", lay, hx(key), hx(iv), hx(rawCBC(decKey, iv, stdPad16(pt)))))
+		case 2:
+			lines = append(lines, fmt.Sprintf("gcmenc %s %s %s %s %s", lay, hx(key), hx(nonce), hx(ad), hx(pt)))
+		case 3:
+			blk, _ := aes.NewCipher(decKey)
+			g, _ := cipher.NewGCM(blk)
+			lines = append(lines, fmt.Sprintf("gcmdec %s %s %s %s %s", lay, hx(key), hx(nonce), hx(ad), hx(g.Seal(nil, nonce, pt, ad))))
+		}
+	}
+	return core.Case{Lines: lines, Tag: "history"}
+}
+
+// ---------- magnitude / large stream
+
+var thresholds = []int{15, 16, 17, 31, 32, 33, 63, 64, 65, 127, 128, 129, 255, 256, 257, 511, 512, 513, 1023, 1024, 1025}
+
+// genLarge: few calls on sizes that cross every plausible internal threshold (the Lean AES
+// makes ≈ 4 KiB the practical ceiling of the compared stream; 64 KiB is in the `large-inputs`
+// extra against the stdlib only).
+func genLarge(r *core.Rand, tier string) core.Case {
+	lines := []string{"@ C08 x"}
+	sizes := thresholds
+	if tier == "thorough" {
+		sizes = append(append([]int{}, thresholds...), 2047, 2048, 2049, 4095, 4096, 4097)
+	}
+	n := sizes[r.Intn(len(sizes))]
+	key := r.Bytes([]int{16, 24, 32}[r.Intn(3)])
+	iv, nonce := r.Bytes(16), r.Bytes(12)
+	pt := r.Bytes(n)
+	switch r.Pick(25, 25, 20, 20, 10) {
+	case 0:
+		lines = append(lines, fmt.Sprintf("cbcenc %s %s %s %s", layout(r), hx(key), hx(iv), hx(pt)))
+	case 1:
+		lines = append(lines, fmt.Sprintf("cbcdec %s %s %s %s", layout(r), hx(key), hx(iv), hx(rawCBC(key, iv, stdPad16(pt)))))
+	case 2:
+		ad := r.Bytes(sizes[r.Intn(len(sizes))] % 600)
+		lines = append(lines, fmt.Sprintf("gcmenc %s %s %s %s %s", layout(r), hx(key), hx(nonce), hx(ad), hx(pt)))
+	case 3:
+		ad := r.Bytes(sizes[r.Intn(len(sizes))] % 600)
+		blk, _ := aes.NewCipher(key)
+		g, _ := cipher.NewGCM(blk)
+		lines = append(lines, fmt.Sprintf("gcmdec %s %s %s %s %s", layout(r), hx(key), hx(nonce), hx(ad), hx(g.Seal(nil, nonce, pt, ad))))
+	case 4: // PKCS7 on long data, block sizes at the byte boundary
+		b := []int{1, 16, 127, 128, 200, 254, 255}[r.Intn(7)]
+		d := r.Bytes(n%600 + 1)
+		lines = append(lines, fmt.Sprintf("pad %s %d", hx(d), b), fmt.Sprintf("enclen %d", n*r.Range(1, 70)))
+		padded := append(append([]byte{}, d...), bytes.Repeat([]byte{byte(b - len(d)%b)}, b-len(d)%b)...)
+		lines = append(lines, fmt.Sprintf("unpad %s %d", hx(padded), b))
+	}
+	return core.Case{Lines: lines, Tag: "large"}
+}
+
 func gen(r *core.Rand, tier string) core.Case {
+	switch {
+	case r.Chance(12):
+		return genHist(r, tier)
+	case r.Chance(4) || (tier == "thorough" && r.Chance(8)):
+		return genLarge(r, tier)
+	}
 	lines := []string{"@ C08 x"}
 	if r.Chance(6) {
 		// dst longer / shorter than documented: the library then encrypts / un-pads the WHOLE
@@ -463,6 +562,82 @@ func corpus() []core.Case {
 		}
 	}
 	cs = append(cs, core.Case{Lines: append([]string{"@ C08 x"}, ls...), Tag: "offcontract"})
+	// HISTORIES, enumerated: the key buffer overwritten in place by another key of the same
+	// length between two calls, for every key size and every ordered pair of helpers; the third
+	// call decrypts, with the buffer holding key 2, a message made under key 1 (must not open).
+	hOps := []string{"cbcenc", "cbcdec", "gcmenc", "gcmdec"}
+	nonce12 := seqBytes(12, 0x70)
+	mkH := func(op string, k, msgKey []byte, n int) string {
+		pt := seqBytes(n, 0x31)
+		switch op {
+		case "cbcenc":
+			return fmt.Sprintf("cbcenc fresh %s %s %s", hx(k), hx(iv), hx(pt))
+		case "cbcdec":
+			return fmt.Sprintf("cbcdec inplace %s %s %s", hx(k), hx(iv), hx(rawCBC(msgKey, iv, stdPad16(pt))))
+		case "gcmenc":
+			return fmt.Sprintf("gcmenc inplace %s %s 6164 %s", hx(k), hx(nonce12), hx(pt))
+		}
+		blk, _ := aes.NewCipher(msgKey)
+		g, _ := cipher.NewGCM(blk)
+		return fmt.Sprintf("gcmdec fresh %s %s 6164 %s", hx(k), hx(nonce12), hx(g.Seal(nil, nonce12, pt, []byte("ad"))))
+	}
+	for _, ks := range []int{16, 24, 32} {
+		k1 := seqBytes(ks, 0x01)
+		k2 := append([]byte{}, k1...)
+		k2[ks-1] ^= 0x01 // one bit apart
+		k3 := seqBytes(ks, 0x81)
+		for _, a := range hOps {
+			for _, b := range hOps {
+				cs = append(cs, core.Case{Lines: []string{"@ C08 hist", mkH(a, k1, k1, 20), mkH(b, k2, k2, 33),
+					mkH("gcmdec", k2, k1, 5), mkH("cbcdec", k3, k2, 16), mkH(a, k3, k3, 0)}, Tag: "history"})
+			}
+		}
+	}
+	// MAGNITUDES, enumerated: every key length 0..70, every nonce length 0..40, every AD length
+	// 0..100, plaintext lengths at every block boundary up to 208, every PKCS#7 block size 1..255
+	ls = nil
+	for n := 0; n <= 70; n++ {
+		k := seqBytes(n, 9)
+		ls = append(ls, fmt.Sprintf("%s %s %s %s 0102", []string{"cbcenc", "cbcdec"}[n%2], []string{"fresh", "inplace"}[n/2%2], hx(k), hx(iv)),
+			fmt.Sprintf("%s fresh %s %s - %s", []string{"gcmenc", "gcmdec"}[n/2%2], hx(k), hx(nonce12), hx(seqBytes(17, 1))))
+	}
+	cs = append(cs, core.Case{Lines: append([]string{"@ C08 x"}, ls...), Tag: "magnitude"})
+	ls = nil
+	blk32, _ := aes.NewCipher(key)
+	for n := 0; n <= 100; n++ {
+		a := seqBytes(n, 0x90)
+		ls = append(ls, fmt.Sprintf("gcmenc %s %s %s %s %s", []string{"fresh", "inplace"}[n%2], hx(key), hx(nonce12), hx(a), hx(seqBytes(n%19, 2))))
+		if n >= 1 && n <= 40 {
+			nn := seqBytes(n, 0x33)
+			g, _ := cipher.NewGCMWithNonceSize(blk32, n)
+			ls = append(ls, fmt.Sprintf("gcmenc fresh %s %s %s 010203", hx(key), hx(nn), hx(a)),
+				fmt.Sprintf("gcmdec inplace %s %s %s %s", hx(key), hx(nn), hx(a), hx(g.Seal(nil, nn, seqBytes(n, 5), a))))
+		}
+	}
+	cs = append(cs, core.Case{Lines: append([]string{"@ C08 x"}, ls...), Tag: "magnitude"})
+	ls = nil
+	for k := 3; k <= 13; k++ {
+		for _, d := range []int{-1, 0, 1} {
+			pt := seqBytes(16*k+d, 0x40)
+			lay := []string{"fresh", "inplace"}[(k+d+1)%2]
+			ls = append(ls, fmt.Sprintf("cbcenc %s %s %s %s", lay, hx(key), hx(iv), hx(pt)),
+				fmt.Sprintf("cbcdec %s %s %s %s", lay, hx(key), hx(iv), hx(rawCBC(key, iv, stdPad16(pt)))),
+				fmt.Sprintf("gcmenc %s %s %s - %s", lay, hx(key), hx(nonce12), hx(pt)))
+		}
+	}
+	cs = append(cs, core.Case{Lines: append([]string{"@ C08 x"}, ls...), Tag: "magnitude"})
+	ls = nil
+	for b := 1; b <= 255; b++ {
+		d := seqBytes(b+b%7+1, 0x11)
+		padded := append(append([]byte{}, d...), bytes.Repeat([]byte{byte(b - len(d)%b)}, b-len(d)%b)...)
+		ls = append(ls, fmt.Sprintf("pad %s %d", hx(d), b), fmt.Sprintf("unpad %s %d", hx(padded), b))
+		// the data padded for block size 2b (or 255) un-padded with block size b: pad length > b
+		if b <= 127 {
+			x := append(append([]byte{}, seqBytes(b-1, 0x11)...), bytes.Repeat([]byte{byte(b + 1)}, b+1)...)
+			ls = append(ls, fmt.Sprintf("unpad %s %d", hx(x), b)) // length 2b, last b+1 bytes = b+1: must be an error
+		}
+	}
+	cs = append(cs, core.Case{Lines: append([]string{"@ C08 x"}, ls...), Tag: "magnitude"})
 	return cs
 }
 
